@@ -299,9 +299,9 @@ Definition h_if_then_else (d : dyn) (cnd t e : rid) (c : cursor) : result :=
      | Res Ok c' evs => prepend evs (ev (opt_ d) t c')
      | Res Fail c' evs => prepend evs (ev (opt_ d) e c')
      | x => x end).
-(* if_must< Default, Cond, Rules... >: passes M to Cond and to must< Rules... >, as written *)
+(* if_must< Default, Cond, Rules... >: Cond gets ( Default ? required : M ), must< Rules... > gets M *)
 Definition h_if_must (dflt : bool) (d : dyn) (cnd : rid) (rest_ : list rid) (c : cursor) : result :=
-  match ev d cnd c with
+  match ev (if dflt then req d else d) cnd c with
   | Res Ok c' evs => match rest_ with
                      | [] => Res Ok c' evs
                      | m :: _ => match ev d m c' with
